@@ -57,14 +57,19 @@ PROPS = {
     "C05": Prop(MUT_SIDECARS, CHOICE + [f"{K}:Choice.bool_value", f"{K}:Symbol.bool_value", f"{K}:Symbol.set_value"],
                 ["drv_eval"], level="proof",
                 explanation="selection rule and member values proved against the statement's three-step rule"),
-    "C06": Prop(RENDER_SIDECARS + ["contracts.c_mut"],
-                [f"{K}:Symbol.str_value#*", f"{K}:Symbol.value_is_valid", f"{K}:Symbol.set_value", f"{K}:Kconfig._header_string"],
+    "C06": Prop(RENDER_SIDECARS + ["contracts.c_mut", "contracts.c_lemmas"],
+                [f"{K}:Symbol.str_value#*", f"{K}:Symbol.value_is_valid", f"{K}:Symbol.set_value", f"{K}:Kconfig._header_string",
+                 "lemma:sv_num_wellformed", "lemma:sv_float_wellformed", "lemma:canary_sv_num_always_empty"],
                 ["drv_eval"], level="other", thorough=[f"{K}:Symbol.str_value#{c}" for c in NUM_CASES],
                 explanation="quick tier: accepted user values proved well-formed at the store (value_is_valid, set_value, float "
                             "normalisation), the header renderer proved against the one-entry spec, exhaustiveness of the "
-                            "str_value case split; the numeric branches of str_value (well-formed result, clamping into the "
-                            "active range) are proved in the thorough tier only; generators bounded"),
-    "C07": Prop(RENDER_SIDECARS, [f"{K}:Symbol.config_string", f"{K}:Kconfig._header_string", f"{K}:_escape"],
+                            "str_value case split, and two lemmas over the spec functions: the value the precedence rule prescribes "
+                            "for an int / hex / float option (DEF_SV) is empty or well-formed for the type and lies inside the "
+                            "active range; that the numeric branches of the real str_value compute exactly DEF_SV is proved in "
+                            "the thorough tier only; generators bounded"),
+    "C07": Prop(RENDER_SIDECARS + ["contracts.c_deprecated"],
+                [f"{K}:Symbol.config_string", f"{K}:Kconfig._header_string", f"{K}:_escape",
+                 "esp_kconfiglib.deprecated:DeprecatedOptions._deprecated_config_string"],
                 ["drv_outputs"], level="other",
                 explanation="sdkconfig and header entries proved equal to one spec of (written?, type, value); CMake / JSON / "
                             "aliases bounded"),
@@ -72,7 +77,11 @@ PROPS = {
                 explanation="marker predicate proved; load-side clauses bounded"),
     "C09": Prop([], [], ["drv_eval"], level="other", explanation="loop rejection and exception-freedom bounded"),
     "C10": Prop([], [], ["drv_loadsave"], level="other", explanation="reconstruction bounded"),
-    "C11": Prop([], [], ["drv_loadsave"], level="other", explanation="rename resolution bounded"),
+    "C11": Prop(RENDER_SIDECARS + ["contracts.c_deprecated"],
+                ["esp_kconfiglib.deprecated:DeprecatedOptions._deprecated_config_string"], ["drv_loadsave"], level="other",
+                explanation="the line written for a deprecated alias is proved to carry the replacement's value, inverted "
+                            "exactly for `!` aliases of bools (what a later load of the block reads back); rename resolution "
+                            "while loading is bounded"),
     "C12": Prop(["contracts.kschema", "contracts.c_files"], [f"{K}:Kconfig._contents_eq", f"{K}:Kconfig._write_if_changed"],
                 ["drv_outputs"], level="other",
                 explanation="_write_if_changed (no write effect when unchanged) proved over the file-system effect model; "
